@@ -10,7 +10,7 @@ pkg/core/stateroot.Module, on top of the C10 trie model (Model/Mpt.lean: fully e
   Store, Cell                       DataMPT records: bytes ‖ active ‖ count-or-height (trie.go:422-486)
   updateRefCount, flush             trie.go:414-486
   gc                                stateroot/module.go:301-333
-  St, compute, commit, dropBlock    stateroot/module.go:336-360 AddMPTBatch / UpdateCurrentLocal
+  St, compute, commit, dropBlock    stateroot/module.go:336-373 AddMPTBatch / DropMPTBatch / UpdateCurrentLocal
   Act, loadNode, applyActs, interleave, computeL, commitL
                                     trie.go:518-545 lazy loading: getFromStore refreshes the cached
                                     stored count of an existing refcount-map entry; a block = its events
@@ -527,12 +527,13 @@ def commitL (H : Bytes → Bytes) (s : St) (idx : Nat) (ops : List SubOp) (ld : 
     some { s with root := t', rc := m', store := st', roots := (idx, rootHash H t') :: s.roots,
                   hist := (idx, t') :: s.hist }
 
-/-- a block that is computed and then dropped: the cache is discarded and `UpdateCurrentLocal` is
-not called, but `mpt := *s.mpt` is a shallow copy — the refcount map is shared and the nodes are
-updated in place. With the live trie in memory and a root that is a branch before and after (any
-real chain state), `s.mpt.root` IS the new root object, so the module's trie becomes the dropped
-block's trie; the store keeps the old records. -/
-def dropBlock (H : Bytes → Bytes) (s : St) (idx : Nat) (ops : List SubOp) : Option St :=
+/-- THE OLD RULE (before /repo c513b1a; kept for the regression theorems of Props/C11 §5 and as the
+prediction of the harness's self-test mode that omits `DropMPTBatch`): a block that is computed and
+then simply not committed. The cache is discarded and `UpdateCurrentLocal` is not called, but
+`mpt := *s.mpt` is a shallow copy — the refcount map is shared and the nodes are updated in place.
+With the live trie in memory and a root that is a branch before and after, `s.mpt.root` IS the new
+root object, so the module's trie becomes the dropped block's trie; the store keeps the old records. -/
+def dropBlockNoReload (H : Bytes → Bytes) (s : St) (idx : Nat) (ops : List SubOp) : Option St :=
   match compute H s idx ops with
   | none => none
   | some (t', m', _) => some { s with root := t', rc := m' }
@@ -542,6 +543,18 @@ def dropBlockSpec (s : St) : St := s
 
 /-- restart / `Collapse`: the refcount map is rebuilt empty (trie.go:62-74, 550-556). -/
 def reset (s : St) : St := { s with rc := [] }
+
+/-- a block that is computed and then dropped, as the node does it now (blockchain.go storeBlock:
+every error path after `AddMPTBatch` calls `stateRoot.DropMPTBatch()`, module.go:351-362): the
+block's cache is discarded and the module's trie is re-opened from the current local root —
+`mpt.NewTrie(NewHashNode(currentLocal), mode, Store)`, or an empty trie before the first root — with
+a fresh refcount map. In the expanded model: the committed trie stays the live trie, the map is
+emptied, nothing else changes. `none` = `Flush` of the dropped block panicked. -/
+def dropBlock (H : Bytes → Bytes) (s : St) (idx : Nat) (ops : List SubOp) : Option St :=
+  match compute H s idx ops with
+  | none => none
+  | some _ => some (reset s)
+
 
 def gcSt (s : St) (g : Nat) : St := { s with store := gc g s.store, gcAt := max s.gcAt g }
 
